@@ -281,9 +281,25 @@ func runScopes(m *mp.Model, r *rng.R, n int, out *res.Result) error {
 		cr := r.Sub()
 		seed := cr.Seed()
 		src, g := genDoc(cr)
-		h, err := tree.NewHTML(utils.InputString(src), "", nil, "")
+		out.Hit(fmt.Sprintf("doc:elements:%d", (g.n+4)/5*5))
+		texts, nobs, err := checkDoc(m, src, g.starts, g.decls >= 2, out, seed)
 		if err != nil {
 			return err
+		}
+		if i == 0 && texts != nil {
+			out.Sample(map[string]interface{}{"document": src, "observations": nobs})
+		}
+	}
+	return nil
+}
+
+// checkDoc builds the box tree of one document with the real code and compares every counter text
+// with the scope model (corr) and the CSS Lists 3 algorithm (judge).  Returns the texts found.
+func checkDoc(m *mp.Model, src string, starts map[string]int, nontrivial bool, out *res.Result, seed uint64) (map[[2]string]string, int, error) {
+	{
+		h, err := tree.NewHTML(utils.InputString(src), "", nil, "")
+		if err != nil {
+			return nil, 0, err
 		}
 		cs := make(counters.CounterStyle)
 		sf := tree.GetAllComputedStyles(h, nil, true, nil, cs, nil, nil, false, nil)
@@ -296,19 +312,18 @@ func runScopes(m *mp.Model, r *rng.R, n int, out *res.Result) error {
 			root = bo.BuildFormattingStructure(h.Root, sf, bo.URLResolver{}, "", &tc, cs, new([]bo.Box))
 			return ""
 		})
-		out.Count("doc|"+src, g.decls >= 2)
-		out.Hit(fmt.Sprintf("doc:elements:%d", (g.n+4)/5*5))
+		out.Count("doc|"+src, nontrivial)
 		if pan != "" {
 			add(out, res.Finding{Kind: "crash", Op: "crash:boxes:BuildFormattingStructure", Input: src, Impl: "panic: " + pan, Key: panicClass(pan), Seed: seed})
-			continue
+			return nil, 0, nil
 		}
 		collectText(root, texts)
 		ans, err := m.Ask(req)
 		if err != nil {
-			return err
+			return nil, 0, err
 		}
 		if ans.K != sx.List || len(ans.Xs) != 4 {
-			return fmt.Errorf("scope: model answered %s", ans.String())
+			return nil, 0, fmt.Errorf("scope: model answered %s", ans.String())
 		}
 		setFirst, _ := parseObs(ans.Xs[3]) // CSS Lists 3 with set applied before increment
 		for which, x := range ans.Xs[1:3] {
@@ -349,7 +364,7 @@ func runScopes(m *mp.Model, r *rng.R, n int, out *res.Result) error {
 			}
 		}
 		// ol start=N: the first list item shows N
-		for id, n := range g.starts {
+		for id, n := range starts {
 			for _, e := range exp {
 				if e.id == id && e.kind == "marker" {
 					want := cs.RenderMarker(e.style.GetListStyleType(), n)
@@ -360,10 +375,6 @@ func runScopes(m *mp.Model, r *rng.R, n int, out *res.Result) error {
 				}
 			}
 		}
-		if i == 0 {
-			out.Sample(map[string]interface{}{"document": src, "observations": len(exp)})
-		}
+		return texts, len(exp), nil
 	}
-	return nil
 }
-
